@@ -36,12 +36,13 @@ theorem uc_loop {d : Descr} (hd : d ∈ T.descrs) (hk : d.kind = .context) (hnd 
         CIok tx₀ del pend (fun a k => stc a k ∧ ¬ (a = d.handle ∧ k ∈ L.map (·.h))) T p) ∧
       (∀ x ∈ T.ctx, CRef (fun a k => stc a k ∧ ¬ (a = d.handle ∧ k ∈ L.map (·.h))) T (L.foldl (ucStep d) X) x) ∧
       (L.foldl (ucStep d) X).sItems = X.sItems ∧ (L.foldl (ucStep d) X).descr = X.descr ∧
-      (∀ p ∈ (L.foldl (ucStep d) X).cItems, p.2.old = none → p ∈ X.cItems) := by
+      (∀ p ∈ (L.foldl (ucStep d) X).cItems, p.2.old = none → p ∈ X.cItems) ∧
+      (∀ p ∈ (L.foldl (ucStep d) X).cItems, p.2.new = none → p ∈ X.cItems) := by
   intro L
   induction L with
   | nil =>
     intro X stc _ hK hci hcr
-    refine ⟨hK, ?_, ?_, rfl, rfl, fun p hp _ => hp⟩
+    refine ⟨hK, ?_, ?_, rfl, rfl, fun p hp _ => hp, fun p hp _ => hp⟩
     · intro p hp
       have := hci p hp
       refine ⟨this.old, this.odh, ?_, this.fresh⟩
@@ -64,7 +65,8 @@ theorem uc_loop {d : Descr} (hd : d ∈ T.descrs) (hk : d.kind = .context) (hnd 
         (∀ p ∈ (ucStep d X cs).cItems, CIok tx₀ del pend (fun a k => stc a k ∧ ¬ (a = d.handle ∧ k = cs.h)) T p) ∧
         (∀ x ∈ T.ctx, CRef (fun a k => stc a k ∧ ¬ (a = d.handle ∧ k = cs.h)) T (ucStep d X cs) x) ∧
         (ucStep d X cs).sItems = X.sItems ∧ (ucStep d X cs).descr = X.descr ∧
-        (∀ p ∈ (ucStep d X cs).cItems, p.2.old = none → p ∈ X.cItems) := by
+        (∀ p ∈ (ucStep d X cs).cItems, p.2.old = none → p ∈ X.cItems) ∧
+        (∀ p ∈ (ucStep d X cs).cItems, p.2.new = none → p ∈ X.cItems) := by
       -- items with another key and context states with another handle are not affected
       have hother : ∀ p ∈ X.cItems, p.1 ≠ cs.h → CIok tx₀ del pend (fun a k => stc a k ∧ ¬ (a = d.handle ∧ k = cs.h)) T p := by
         intro p hp hne
@@ -101,8 +103,12 @@ theorem uc_loop {d : Descr} (hd : d ∈ T.descrs) (hk : d.kind = .context) (hnd 
       | none =>
         simp only
         have hnk := dictGet_none_iff.1 hg
-        refine ⟨dictSet_keys_nodup hK _ _, ?_, ?_, (by first | rfl | trivial), (by first | rfl | trivial), ?_⟩
+        refine ⟨dictSet_keys_nodup hK _ _, ?_, ?_, (by first | rfl | trivial), (by first | rfl | trivial), ?_, ?_⟩
         rotate_left 2
+        · intro p hp ho
+          rcases mem_dictSet hp with rfl | ⟨_, hp⟩
+          · simp at ho
+          · exact hp
         · intro p hp ho
           rcases mem_dictSet hp with rfl | ⟨_, hp⟩
           · simp at ho
@@ -124,7 +130,7 @@ theorem uc_loop {d : Descr} (hd : d ∈ T.descrs) (hk : d.kind = .context) (hnd 
         cases new with
         | none =>
           simp only
-          refine ⟨hK, ?_, hcr' X (fun _ h => h) hin, (by first | rfl | trivial), (by first | rfl | trivial), fun p hp _ => hp⟩
+          refine ⟨hK, ?_, hcr' X (fun _ h => h) hin, (by first | rfl | trivial), (by first | rfl | trivial), fun p hp _ => hp, fun p hp _ => hp⟩
           intro p hp
           by_cases e : p.1 = cs.h
           · have : p = (cs.h, ⟨o, none⟩) := by
@@ -139,11 +145,15 @@ theorem uc_loop {d : Descr} (hd : d ∈ T.descrs) (hk : d.kind = .context) (hnd 
           simp only
           have ho : o = some cs := by have := hit.old; simp only at this; rw [hfc] at this; exact this
           obtain ⟨a, b, c, e, f⟩ := hit.new n rfl
-          refine ⟨by rw [dictSet_keys_of_mem hin]; exact hK, ?_, ?_, (by first | rfl | trivial), (by first | rfl | trivial), ?_⟩
+          refine ⟨by rw [dictSet_keys_of_mem hin]; exact hK, ?_, ?_, (by first | rfl | trivial), (by first | rfl | trivial), ?_, ?_⟩
           rotate_left 2
           · intro p hp ho'
             rcases mem_dictSet hp with rfl | ⟨_, hp⟩
             · rw [ho] at ho'; simp at ho'
+            · exact hp
+          · intro p hp ho'
+            rcases mem_dictSet hp with rfl | ⟨_, hp⟩
+            · simp at ho'
             · exact hp
           · intro p hp
             rcases mem_dictSet hp with rfl | ⟨hne, hp⟩
@@ -154,9 +164,9 @@ theorem uc_loop {d : Descr} (hd : d ∈ T.descrs) (hk : d.kind = .context) (hnd 
           · refine hcr' _ ?_ ?_
             · intro k hk'; rw [dictSet_keys_of_mem hin]; exact hk'
             · rw [dictSet_keys_of_mem hin]; exact hin
-    obtain ⟨s1, s2, s3, s4, s5, s6⟩ := step
-    obtain ⟨r1, r2, r3, r4, r5, r6⟩ := ih (ucStep d X cs) _ (fun x hx => hL x (by simp [hx])) s1 s2 s3
-    refine ⟨r1, ?_, ?_, r4.trans s4, r5.trans s5, fun p hp ho => s6 p (r6 p hp ho) ho⟩
+    obtain ⟨s1, s2, s3, s4, s5, s6, s7⟩ := step
+    obtain ⟨r1, r2, r3, r4, r5, r6, r7⟩ := ih (ucStep d X cs) _ (fun x hx => hL x (by simp [hx])) s1 s2 s3
+    refine ⟨r1, ?_, ?_, r4.trans s4, r5.trans s5, fun p hp ho => s6 p (r6 p hp ho) ho, fun p hp ho => s7 p (r7 p hp ho) ho⟩
     · intro p hp
       have := r2 p hp
       refine ⟨this.old, this.odh, ?_, this.fresh⟩
@@ -200,10 +210,11 @@ theorem CInv.updCorr {c : DCommit} {d : Descr} (h : CInv t₀ tx₀ del pend (fu
       intro x hx; simpa [ctxOf, List.mem_filter] using hx
     have hLn : ∀ x ∈ c.t.ctx, x.dh = d.handle → x.h ∈ (ctxOf c.t d.handle).map (·.h) := by
       intro x hx e; exact List.mem_map_of_mem (by simp [ctxOf, List.mem_filter, hx, e])
-    obtain ⟨r1, r2, r3, r4, r5, r6⟩ := uc_loop (tx₀ := tx₀) (pend := pend) hd hk hnd h.cKeys (ctxOf c.t d.handle) c.tx
+    obtain ⟨r1, r2, r3, r4, r5, r6, r7⟩ := uc_loop (tx₀ := tx₀) (pend := pend) hd hk hnd h.cKeys (ctxOf c.t d.handle) c.tx
       (fun a _ => st a ∨ a = d.handle) hL h.ciKeys h.ci h.cRef
     refine ⟨⟨h.dKeys, h.sKeys, h.cKeys, h.dOld, h.dSurv, h.dUp, h.dPar, h.pendFresh, h.creDone, ?_, ?_, ?_, ?_, r1, ?_, h.seen, by simp only [r4]; exact h.siOld0,
-      fun p hp ho => h.ciOld0 p (r6 p hp ho) ho⟩, r5, (by first | rfl | trivial)⟩
+      fun p hp ho => h.ciOld0 p (r6 p hp ho) ho,
+      fun h0 p hp hn => h.ciNoDel h0 p (r7 p hp hn) hn⟩, r5, (by first | rfl | trivial)⟩
     · intro s hs
       obtain ⟨k, d', hd', e1, e2, e3⟩ := h.sRef s hs
       refine ⟨k, d', hd', e1, e2, ?_⟩
@@ -284,7 +295,7 @@ theorem CInv.updCorr {c : DCommit} {d : Descr} (h : CInv t₀ tx₀ del pend (fu
       have hm := dictGet_some_mem hg
       have hin : d.handle ∈ c.tx.sItems.map (·.1) := List.mem_map.2 ⟨_, hm, rfl⟩
       have hit := h.si _ hm
-      refine ⟨⟨h.dKeys, h.sKeys, h.cKeys, h.dOld, h.dSurv, h.dUp, h.dPar, h.pendFresh, h.creDone, ?_, hcr, ?_, ?_, h.ciKeys, hci, h.seen, ?_, h.ciOld0⟩,
+      refine ⟨⟨h.dKeys, h.sKeys, h.cKeys, h.dOld, h.dSurv, h.dUp, h.dPar, h.pendFresh, h.creDone, ?_, hcr, ?_, ?_, h.ciKeys, hci, h.seen, ?_, h.ciOld0, h.ciNoDel⟩,
         (by first | rfl | trivial), (by first | rfl | trivial)⟩
       · intro s hs
         obtain ⟨k, d', hd', e1, e2, e3⟩ := h.sRef s hs
@@ -307,7 +318,7 @@ theorem CInv.updCorr {c : DCommit} {d : Descr} (h : CInv t₀ tx₀ del pend (fu
       cases hf : findS c.t d.handle with
       | none =>
         simp only
-        refine ⟨⟨h.dKeys, h.sKeys, h.cKeys, h.dOld, h.dSurv, h.dUp, h.dPar, h.pendFresh, h.creDone, ?_, hcr, h.siKeys, ?_, h.ciKeys, hci, h.seen, h.siOld0, h.ciOld0⟩,
+        refine ⟨⟨h.dKeys, h.sKeys, h.cKeys, h.dOld, h.dSurv, h.dUp, h.dPar, h.pendFresh, h.creDone, ?_, hcr, h.siKeys, ?_, h.ciKeys, hci, h.seen, h.siOld0, h.ciOld0, h.ciNoDel⟩,
           (by first | rfl | trivial), (by first | rfl | trivial)⟩
         · intro s hs
           obtain ⟨k, d', hd', e1, e2, e3⟩ := h.sRef s hs
@@ -322,7 +333,7 @@ theorem CInv.updCorr {c : DCommit} {d : Descr} (h : CInv t₀ tx₀ del pend (fu
         have hs' := findS_some hf
         obtain ⟨ks, _⟩ := h.sRef s hs'.2
         refine ⟨⟨h.dKeys, h.sKeys, h.cKeys, h.dOld, h.dSurv, h.dUp, h.dPar, h.pendFresh, h.creDone, ?_, hcr,
-          dictSet_keys_nodup h.siKeys _ _, ?_, h.ciKeys, hci, h.seen, ?_, h.ciOld0⟩, (by first | rfl | trivial), (by first | rfl | trivial)⟩
+          dictSet_keys_nodup h.siKeys _ _, ?_, h.ciKeys, hci, h.seen, ?_, h.ciOld0, h.ciNoDel⟩, (by first | rfl | trivial), (by first | rfl | trivial)⟩
         · intro s' hs''
           obtain ⟨k, d', hd', e1, e2, e3⟩ := h.sRef s' hs''
           refine ⟨k, d', hd', e1, e2, ?_⟩
